@@ -316,6 +316,12 @@ class AccessMixin:
         text = ast.unparse(node.func)
         h = self.find_call_handler(text, fr)
         if h is not None:
+            if getattr(h, "raw", False):
+                # raw handler: receives the unevaluated call node (arguments it does not evaluate are not executed)
+                from .api import Ctx
+                self.assumptions.add(f"assumed contract on `{text}`" + (f": {h.__doc__.strip().splitlines()[0]}" if h.__doc__ else ""))
+                r = h(Ctx(self, fr, text, node), node)
+                return r if r is not None else SV(NONE, Ty("none"))
             args, kwargs = self.eval_args(node, fr)
             return self.run_handler(h, text, args, kwargs, fr, node)
         if isinstance(node.func, ast.Name) and node.func.id == "super" and not node.args:
